@@ -327,7 +327,10 @@ class SGen:
         if t.startswith("(decimal %d"):
             return t % (r.choice([0, 1, 10, 16]), r.choice([0, 2, 5, 4294967295]))
         if t.startswith("(enum"):
-            return t % (hexs("mood"), hexs("happy"), hexs("it's"))
+            # enum names that contain type keywords SQLite's affinity rules react to (INT, CHAR, BLOB, REAL): the
+            # column's affinity must not depend on the enum's name
+            return t % (hexs(r.choice(["mood", "point_size", "print_quality", "charm", "blobby", "real_kind"])),
+                        hexs("happy"), hexs("it's"))
         n = t.count("%d")
         return t % tuple(r.choice([0, 1, 16, 17, 255, 65535, 4294967295]) for _ in range(n)) if n else t
 
